@@ -34,9 +34,9 @@ PLAN = {
         vacuity=[("smp_mixed", [], "mark-all-sampled")],
     ),
     "C06": dict(
-        quick=[("att4", dict(cap=1500)), ("att4_c", dict(cap=800)), ("lit_attach_other", dict(cap=800)), ("twin4", dict(cap=600)),
+        quick=[("att4", dict(cap=1500)), ("att4_c", dict(cap=800)), ("lit_attach_other", dict(cap=800)), ("twin4", dict(cap=600)), ("latt_deep", dict(cap=2000)),
                ("stress:att4", dict(rounds=200, threads=6))],
-        thorough=["att4", "att5", "att4_c", "lit_attach_other", "twin4", ("sim_att", dict(cap=6000))],
+        thorough=["att4", "att5", "att4_c", "lit_attach_other", "twin4", "latt_deep", ("sim_att", dict(cap=6000))],
         vacuity=[("att4", [], "drain-danglings")],
     ),
     "C07": dict(
@@ -55,13 +55,13 @@ PLAN = {
     "C09": dict(
         quick=[("over5_d", dict(cap=800, shuffle=3)), ("over5_c", dict(cap=800, shuffle=3)), ("lit_overflow_cancel", dict(cap=500, shuffle=6)),
                ("lit_overflow_finish", dict(cap=500, shuffle=4)), ("lit_overflow_finish_c", dict(cap=500, shuffle=4)),
-               ("qlimit5", dict(cap=800)), ("scope_q1", dict(cap=1500))],
+               ("qlimit5", dict(cap=4000)), ("scope_q1", dict(cap=1500))],
         thorough=["over5_d", "over5_c", "over6_c", "lit_overflow_finish", "lit_overflow_finish_c", "lit_overflow_cancel", "qlimit5"],
         vacuity=[("over5_d", ["FixForceStart"]), ("over5_d", ["FixFifo"])],
     ),
     "C10": dict(
-        quick=[("scope5", dict(cap=2000)), ("scope_q1", dict(cap=3000)), ("scope_qfull", dict(cap=800))],
-        thorough=["scope5", ("scope6", dict(cap=20000)), "scope_q1", "scope_qfull"],
+        quick=[("scope5", dict(cap=2000)), ("scope_q1", dict(cap=3000)), ("scope_qfull", dict(cap=800)), ("scope_smp", dict(cap=2500))],
+        thorough=["scope5", ("scope6", dict(cap=20000)), "scope_q1", "scope_qfull", "scope_smp", ("scope_smp6", dict(cap=20000, timeout=1200))],
         vacuity=[("scope5", [], "no-restore")],
     ),
     "C11": dict(
